@@ -90,6 +90,8 @@ def run(dirs):
 if __name__ == '__main__':
     if sys.argv[1] == 'keep':
         keep(sys.argv[2:])
+    elif sys.argv[1] == 'keep3':        # third round (ten properties): /tmp/seed3/out_<Cxx>/change{1,2} -> <Cxx>-5, <Cxx>-6
+        keep(sys.argv[2:], root='/tmp/seed3', offset=4)
     elif sys.argv[1] == 'keep2':        # second round of sub-agents: /tmp/seed2/out_<Cxx>/change{1,2} -> <Cxx>-3, <Cxx>-4
         keep(sys.argv[2:], root='/tmp/seed2', offset=2)
     else:
